@@ -41,7 +41,7 @@ VALUES = [0, 1, True, False, 1.0, None, '', (1,), (1.0,), [1], 'a', NAN, 2, -1]
 NUMERIC = [0, 1, True, False, 1.0, 2, -1, 3, 2.0]
 FKINDS = ['pass', 'reject_odd', 'edit_new', 'edit_inplace', 'pass', 'edit_empty', 'edit_clear', 'edit_strip', 'negate',
           'edit_userdict', 'edit_chainmap']
-FORMS = ['list', 'tuple', 'single', 'list']
+FORMS = ['list', 'tuple', 'single', 'list', 'iter']     # 'iter': deprecated, still accepted
 
 
 def strict_eq(a, b):
@@ -93,7 +93,8 @@ def gen(ctx):
     rng = ctx.rng('gen')
     n = 350 if ctx.tier == 'quick' else 70000
     for _ in range(n):
-        sender = rng.choice(['src', 'src', 'input', 'counter', 'func', 'not', 'inputexp', 'poll'])
+        sender = rng.choice(['src', 'src', 'input', 'counter', 'func', 'not', 'inputexp', 'poll',
+                             'oasync'])
         alphabet = range(len(NUMERIC)) if sender == 'counter' else range(len(VALUES))
         length = rng.choice([1, 2, 3, 5, 8, 13, 20, 40])
         vals = []
@@ -115,11 +116,16 @@ def gen(ctx):
                      'dup': rng.random() < 0.08}
                     for _ in range(k)]
         case = {'sender': sender, 'values': vals, 'on_output': evlist(),
-                'on_every': evlist() if sender in ('src', 'input', 'counter', 'inputexp', 'poll') else [],
+                'on_every': evlist() if sender in ('src', 'input', 'counter', 'inputexp', 'poll',
+                                                   'oasync') else [],
                 'form': [rng.choice(FORMS), rng.choice(FORMS)],
                 'initdef': rng.random() < 0.5}
         if sender == 'src' and rng.random() < 0.4:
             case['stop_value'] = rng.choice(alphabet)
+        if sender == 'oasync' and rng.random() < 0.5:
+            # the start-up fails after the output block was started: it is never initialised,
+            # still it processes its stop_data and its output (number of active runs) changes
+            case['failed_start'] = True
         yield case
 
 
@@ -190,6 +196,8 @@ def build_and_run(case, ctx):
             return None if form != 'tuple' else ()
         if form == 'tuple':
             return tuple(evs)
+        if form == 'iter':
+            return iter(evs)
         if form == 'single' and len(evs) == 1:
             return evs[0]
         return evs
@@ -217,6 +225,22 @@ def build_and_run(case, ctx):
             s = edzed.InputExp('snd', duration=10 ** 7, initdef=first, expired='EXPIRED',
                                on_output=oo, on_every_output=oe)
             feeder = s
+        elif kind == 'oasync':
+            # the output of an OutputAsync block = the number of its active runs
+            async def job(value):
+                await asyncio.sleep(0.25)
+            s = edzed.OutputAsync('snd', coro=job, mode='start', stop_data={'value': 'STOP'},
+                                  on_error=None, on_output=oo, on_every_output=oe)
+            feeder = s
+            if case.get('failed_start'):
+                class BadStart(edzed.SBlock):
+                    def init_regular(self):
+                        self.set_output(0)
+
+                    def start(self):
+                        super().start()
+                        raise RuntimeError('vf: start fails')
+                BadStart('badstart')
         elif kind == 'poll':
             # a sender with asynchronous first-value initialisation (AddonAsyncInit): every
             # polled value is assigned, equal to the previous one or not
@@ -278,6 +302,12 @@ def build_and_run(case, ctx):
             await asyncio.sleep(len(case['values']) + 0.5)      # one value per second
             await harness.settle(3)
             return sim.alive()
+        if case['sender'] == 'oasync':
+            for k, _idx in enumerate(case['values'][:6]):
+                edzed.ExtEvent(feeder, 'put').send(k)
+                await asyncio.sleep([0.0, 0.1, 0.3][k % 3])     # overlapping and separate runs
+            await asyncio.sleep(0.5)
+            return sim.alive()
         for idx in case['values'][start:]:
             v = pool[idx]
             if isinstance(feeder, (edzed.Counter, edzed.Input, edzed.InputExp)):
@@ -304,7 +334,11 @@ def oracle(case, out, ctx):
     U = edzed.UNDEF
     if out['exc'] is not None:
         raise core.Violation('harness-exception', f"run raised {out['exc']!r}")
-    if not out.get('started') or out['result'] is not True:
+    if case.get('failed_start'):
+        ctx.count('failed_start_output_histories')
+        if out.get('started'):
+            raise core.Inconclusive("C02: the failing start() did not fail the start-up")
+    elif not out.get('started') or out['result'] is not True:
         raise core.Violation('simulation-stopped',
                              f"simulation stopped: {out['sim'].circuit.error!r} / {out['sim'].init_exc!r}")
     # split history into assignments
